@@ -26,6 +26,8 @@ def generate_all():
     info["obligations"]["C19"] = gen_shmem.generate()
     import gen_conc
     info["obligations"]["C17"] = gen_conc.generate()
+    import gen_dup
+    info["obligations"]["C12"] = gen_dup.generate()
     import gen_restrict
     info["obligations"]["C08"] = gen_restrict.generate()
     return info
